@@ -228,8 +228,6 @@ class Gen:
                     for j in range(ar):
                         if j == 0 and kind == 'K2':
                             args.append(firsts[ci])
-                        elif kind == 'K2' and self.rng.random() < 0.3:
-                            args.append(self.const())
                         else:
                             v = self.fresh()
                             vs.append(v)
@@ -429,6 +427,14 @@ def directed(cid_prefix="d"):
        fresh=True)
     # 5: after 4 on a fresh machine: plain goals again (would show a poisoned counter)
     mk(5, [loop] + gen3, [(A('loop_'), R), (S('g_', V('X')), R)], fresh=True)
+    # 7: an inner limit with several solutions and a continuation, with and without an enclosing limit
+    # (finding C40-4: the inferences of the continuation were charged to the inner budget)
+    g5 = [(S('g_', I(i)), TRUE) for i in (1, 2, 3, 4, 5)]
+    mk(7, g5 + [(A('b3_'), S(',', TRUE, TRUE)), (A('b9_'), conj([A('b3_'), A('b3_'), TRUE])),
+                (S('t1_', V('X'), R1), conj([S(CWIL, S('g_', V('X')), I(3), R1), TRUE])),
+                (S('t9_', V('X'), R1), conj([S(CWIL, S('g_', V('X')), I(3), R1), A('b9_')])),
+                (S('t5_', V('X'), R1), conj([S(CWIL, S('g_', V('X')), I(9), R1), A('b3_'), S('g_', V('_Y'))]))],
+       [(S('t1_', V('X'), R1), R), (S('t9_', V('X'), R1), R), (S('t5_', V('X'), R1), R)])
     # 6: limits beyond 64 and 128 bits on a terminating goal (finding C40-3)
     mk(6, gen3, [(S('g_', V('X')), R)], huge=True, fresh=True)
     return out
@@ -615,6 +621,7 @@ def run(ctx):
                 sy = symptom(mits, iits, raw)
                 cls = ("nonvar-R" if (goal["r"][0] != 'v' or c["nonvarR"]) else "nested" if c["nested"] else "flat")
                 sig = {"class": cls, "symptom": sy, "inner_limit_fired": "yes" if inner > 0 else "no",
+                       "case": c["id"] if c.get("family") == "directed" else c.get("family", "random"),
                        "limit": "huge" if q["L"] >= 2 ** 63 else "small"}
                 detail = ("%s\ngoal call_with_inference_limit(%s, %d, %s)\nreference     : %s\nimplementation: %s (load: %s)"
                           % (c["text"], gtxt, q["L"], K.pl(goal["r"]), mres, raw, loaded))
